@@ -83,8 +83,15 @@ func (c *c06World) judgements() []judgement {
 	return c06Separate
 }
 
+// c06Zones: a verification time is an instant; the caller may hand it over in any Location.
+var c06Zones = []*time.Location{time.UTC, time.FixedZone("UTC-8", -8*3600), time.FixedZone("UTC+5:30", 5*3600+1800), time.FixedZone("UTC+14", 14*3600), time.FixedZone("UTC-12", -12*3600), time.FixedZone("UTC+0:01", 60)}
+
+func inSomeZone(t time.Time, salt int) time.Time {
+	return t.In(c06Zones[int((t.Unix()/7+int64(salt))%int64(len(c06Zones))+int64(len(c06Zones)))%len(c06Zones)])
+}
+
 func (c *c06World) timeSet() verify.TimeSet {
-	return verify.TimeSet{PckCertChain: c.times[0], TcbInfo: c.times[1], QeIdentity: c.times[2], PckCrl: c.times[3], RootCaCrl: c.times[4]}
+	return verify.TimeSet{PckCertChain: inSomeZone(c.times[0], 0), TcbInfo: inSomeZone(c.times[1], 1), QeIdentity: inSomeZone(c.times[2], 2), PckCrl: inSomeZone(c.times[3], 3), RootCaCrl: inSomeZone(c.times[4], 4)}
 }
 
 // model returns the reason for rejection at level l, or "".
